@@ -35,7 +35,7 @@ pub open spec fn sum_spec(w: Seq<Option<real>>, mp: int, o: U) -> bool {
     requires
         canon_seq(this.view()),
         out matches Some(o) ==> buf_fresh(o, this.view().len()),
-        (window == 0 && out.is_none()) ==> panic_allowed(),
+        (window == 0 && out.is_none() && this.view().len() > 0) ==> panic_allowed(),
     ensures
         window >= 1 ==> delivered_each(r, match out { Some(o) => Some(final(o).written()), None => None }, this.view().len(),       // #C05 one_output_per_input
             |i: int, o: U| sum_spec(vals(wnd(this.view(), window, i)), mp_eff(min_periods, window, 0), o)),                              // #C01,C05 value_and_mask
